@@ -158,13 +158,16 @@ D2: dict[str, dict[str, str]] = {
               **{"k0000d": _c2(0, 0, 0, 0, dflt=1), "k0000c": _c2(0, 0, 0, 0, kind=1), "k1000d": _c2(1, 0, 0, 0, dflt=1),
                  # export status only: the same definitions, with an __all__ that lists everything / leaves g and v out
                  "k0000e": _c2(0, 0, 0, 0) + "__all__ = ['B1', 'B2', 'K', 'f', 'g', 'g2', 'conv', 'v']\n",
-                 "k0000f": _c2(0, 0, 0, 0) + "__all__ = ['B1', 'B2', 'K', 'f', 'g2', 'conv']\n"}),
+                 "k0000f": _c2(0, 0, 0, 0) + "__all__ = ['B1', 'B2', 'K', 'f', 'g2', 'conv']\n",
+                 # the class K is gone (renamed): every TYPE position that mentions c.K has to be looked at again
+                 "k0000n": _c2(0, 0, 0, 0).replace("class K(", "class KK(")}),
     "b": {
         "star": "from c import *\n",
         "sub": "import c\nclass L(c.K):\n    def use(self) -> int:\n        return self.x + self.m()\n",
         "call": "import c\ndef h() -> int:\n    return c.g(1)\ny = c.f()\n",
         "deco": "import c\nfrom typing import Callable\ndef d(fn: Callable[[], int]) -> Callable[[], int]:\n    return fn\n@d\ndef w() -> int:\n    return c.f()\nclass L(c.K): pass\n",
         "reexp": "from c import g2 as g2, conv as conv, f as f\ny = f()\n",
+        # (type positions are exercised by fgcorpus.EXTRA_CASES, which can use the full typing fixtures)
     },
     "a": {
         "ustar": "import b\nz: int = b.f()\nk = b.K()\nq: int = k.x\n",
